@@ -238,7 +238,7 @@ public:
       departedRoots.push_back(c->root);
       if (c->idx == witnessConn) {witnessOutstanding = -1;}
       if (orc.marks) CheckMarks("after session departure");
-      if ((orc.isolation)&&(c->departedHow.empty())) Fail("session_disconnected_without_cause", "session " + c->root + " was disconnected by the server although its connection was never closed, cut or reset; last command: " + lastCmdDesc);
+      if (((orc.isolation)||((orc.liveness)&&(!c->hostile)))&&(c->departedHow.empty())) Fail("session_disconnected_without_cause", "session " + c->root + " was disconnected by the server although its connection was never closed, cut or reset; last command: " + lastCmdDesc);
       if (orc.isolation) CheckDepartureCleanup(c);
    }
    // client c reads and interprets whatever has arrived
